@@ -40,14 +40,16 @@ import (
 )
 
 var paths = map[string]authsim.Set{
-	"/v2/":                     authsim.NewSet(),
-	"/v2/a/manifests/x":        authsim.NewSet("repository:a:pull"),
-	"/v2/a/blobs/uploads/":     authsim.NewSet("repository:a:pull", "repository:a:push"),
-	"/v2/catalog/manifests/x":  authsim.NewSet("repository:catalog:pull"),
-	"/v2/_catalog":             authsim.NewSet("registry:catalog:*"),
-	"/v2/a/blobs/mount-from-b": authsim.NewSet("repository:a:pull", "repository:a:push", "repository:catalog:pull"),
+	"/v2/":                      authsim.NewSet(),
+	"/v2/a/manifests/x":         authsim.NewSet("repository:a:pull"),
+	"/v2/a/blobs/uploads/":      authsim.NewSet("repository:a:pull", "repository:a:push"),
+	"/v2/catalog/manifests/x":   authsim.NewSet("repository:catalog:pull"),
+	"/v2/_catalog":              authsim.NewSet("registry:catalog:*"),
+	"/v2/a/manifests/del":       authsim.NewSet("repository:a:delete"),
+	"/v2/catalog/manifests/del": authsim.NewSet("repository:catalog:delete"),
+	"/v2/a/blobs/mount-from-b":  authsim.NewSet("repository:a:pull", "repository:a:push", "repository:catalog:pull"),
 }
-var pathList = []string{"/v2/", "/v2/a/manifests/x", "/v2/a/manifests/x", "/v2/a/blobs/uploads/", "/v2/catalog/manifests/x", "/v2/_catalog", "/v2/a/blobs/mount-from-b"}
+var pathList = []string{"/v2/", "/v2/a/manifests/x", "/v2/a/manifests/x", "/v2/a/blobs/uploads/", "/v2/catalog/manifests/x", "/v2/_catalog", "/v2/a/blobs/mount-from-b", "/v2/a/manifests/del", "/v2/catalog/manifests/del"}
 
 var hosts = []string{"r1.example", "r1.example:8443", "r3.example"} // two share a host name and differ in port
 var realms = []string{"t1.example", "t2.example", "t3.example"}
@@ -173,7 +175,7 @@ func newConv(run *evid.Run, rng *rand.Rand, c cell) *conv {
 			}
 			set := ex.Demand
 			if rng.IntN(4) == 0 {
-				set = set.Union(authsim.MaskSet(rng.IntN(16)))
+				set = set.Union(authsim.MaskSet(rng.IntN(1 << len(authsim.Atoms))))
 			}
 			scope := authsim.RenderScope(rng, set)
 			if scope == "" {
@@ -235,7 +237,7 @@ func (cv *conv) genCall(focusBias int) authsim.CallSpec {
 	}
 	spec.Desired = authsim.NewSet()
 	if rng.IntN(3) == 0 {
-		spec.Desired = authsim.MaskSet(rng.IntN(16))
+		spec.Desired = authsim.MaskSet(rng.IntN(1 << len(authsim.Atoms)))
 	} else if rng.IntN(2) == 0 {
 		spec.NoDesired = true
 	}
